@@ -689,7 +689,7 @@ func c13LocsAns(locs []linkedlog.OffsetAndSizeAndSlot, err error) c13Ans {
 	}
 	var sb strings.Builder
 	for _, l := range locs {
-		fmt.Fprintf(&sb, "%d+%d@%d/%x;", l.Offset, l.Size, l.Slot, []byte(l.Flags))
+		fmt.Fprintf(&sb, "%d+%d@%d/%x;", l.Offset, l.Size, l.Slot, byte(l.Flags))
 	}
 	s := sb.String()
 	if len(s) > 200 {
